@@ -57,6 +57,12 @@ func main() {
 			os.Exit(2)
 		}
 		os.Exit(fw.Run(p, tier, seed()))
+	case "racework":
+		reps := 8
+		if len(os.Args) > 2 {
+			reps, _ = strconv.Atoi(os.Args[2])
+		}
+		props.RaceWorkload(reps)
 	case "child":
 		if len(os.Args) < 7 {
 			usage()
